@@ -38,7 +38,7 @@ COMPONENTS = {
 }
 ASSUMPTIONS = [
     "termination is decided by the simulated source: the 9th read/recv after end-of-stream is fatal, plus an item cap "
-    "of len(S)//7+2 and a wall-clock backstop for a spin that neither reads nor yields",
+    "of len(S)//7+2 and a CPU-time backstop for a spin that neither reads nor yields",
     "warnings are not judged",
     "under an injected I/O error the generator may either raise that exception (the object itself, an exception chained "
     "to it, or an OSError of the same class and errno) or stop; what it yielded "
